@@ -30,13 +30,16 @@ Open Scope Z_scope.
 """
 
 CLASSES = ["SampleN", "SampleFrac", "LastN", "LastFrac"]
-SIG = ("{F : Type} (round_mul : Z -> F -> option Z) (choice : Z -> Z -> option (list nat)) "
-       "(argsort : list Z -> list nat) (self_n : Z) (self_fraction : F) (len : Z) (col : option (list Z))")
+# the configured attribute of each class (reading any other attribute fails closed)
+ATTR = {"SampleN": "n", "SampleFrac": "fraction", "LastN": "n", "LastFrac": "fraction"}
+SIG = ("{{F : Type}} (round_mul : Z -> F -> option Z) (choice : Z -> Z -> option (list nat)) "
+       "(argsort : list Z -> list nat) {attr} (len : Z) (col : option (list Z))")
 
 
 class Body:
-    def __init__(self, items_name: str):
+    def __init__(self, items_name: str, attr: str):
         self.items = items_name
+        self.attr = attr
         self.fresh = 0
 
     # ---- integer expressions ---------------------------------------------------------------
@@ -48,7 +51,7 @@ class Body:
                 return env[n.id][0]
             fail(n, f"name {n.id} is not a known integer")
         if isinstance(n, ast.Attribute):
-            if pyq.dotted(n) == "self.n":
+            if pyq.dotted(n) == "self.n" and self.attr == "n":
                 return "self_n"
             fail(n, "unsupported attribute in an integer expression")
         if isinstance(n, ast.UnaryOp) and isinstance(n.op, ast.USub):
@@ -155,7 +158,7 @@ class Body:
             d = pyq.dotted(v.func) if isinstance(v, ast.Call) else None
             if d == "round":
                 if not (len(v.args) == 1 and not v.keywords and isinstance(v.args[0], ast.BinOp)
-                        and isinstance(v.args[0].op, ast.Mult) and pyq.dotted(v.args[0].right) == "self.fraction"):
+                        and isinstance(v.args[0].op, ast.Mult) and pyq.dotted(v.args[0].right) == "self.fraction" and self.attr == "fraction"):
                     fail(s, "round() of something other than <int> * self.fraction")
                 a = self.int_expr(v.args[0].left, env)
                 env2[nm] = (nm, "Z")
@@ -194,7 +197,8 @@ def translate(src) -> dict:
         params = [a.arg for a in f.args.posonlyargs + f.args.args]
         if len(params) != 2 or params[0] != "self" or f.args.kwonlyargs or f.args.vararg or f.args.kwarg:
             raise TranslateError(f"{cls}.__call__: unexpected parameters {params}")
-        b = Body(params[1])
+        b = Body(params[1], ATTR[cls])
         code = b.block(pyq.strip_doc(f.body), {})
-        out.append(f"Definition {cls}_call {SIG} : hres :=\n  {code}.\n")
+        sig = SIG.format(attr="(self_n : Z)" if ATTR[cls] == "n" else "(self_fraction : F)")
+        out.append(f"Definition {cls}_call {sig} : hres :=\n  {code}.\n")
     return {"Gen/C05_holdout.v": "\n".join(out)}
